@@ -3,7 +3,7 @@
    N, positive, comparison, nat stay extracted datatypes.  No Extract Constant. *)
 From Coq Require Import Extraction ExtrOcamlBasic.
 From Coq Require Import List NArith.
-From JS Require Import Model.Base Model.Shape Model.Sem Model.Subset Model.Merger Model.Infer Model.Api Model.Repr Model.Cost.
+From JS Require Import Model.Base Model.Shape Model.Sem Model.Subset Model.Merger Model.Infer Model.Api Model.Repr Model.Cost Model.Gen.
 Extraction Language OCaml.
 Set Extraction AccessOpaque.
 Extraction "Model.ml"
@@ -15,4 +15,9 @@ Extraction "Model.ml"
   infer_text infer_value array_text array_value conflict_free key_conflict
   from_sources_tree is_superset_tree is_superset_checked_tree
   ser de ser_text display ident_keys
-  subset_c merger_c calls_infer.
+  subset_c merger_c calls_infer
+  (* generator layer (Model/Gen.v) *)
+  to_snake to_pascal crc32 hex_upper printable_text shape_name shape_representation
+  first_pass render gen_text file_text gen_header header_ok out_path macro_path plain_name plain_dir
+  compile_json_m no_write wf_items wf_module good_names decodable names_inj serde_ok c15_class
+  decode_auto erase deser_root reser approx out_path_f14 first_pass_f15 opt_array_ok opt_array_decodes.
